@@ -343,6 +343,8 @@ def _describe_sweep(nm: NodeModel, sweep: dict) -> None:
         raise ConfigRejected("two sweep variables read the same context key (rejected by the loader)")
     required = [(n, d) for n, d in comp.params if n not in exprs and d is REQ]
     optional = [(n, d) for n, d in comp.params if n not in exprs and d is not REQ]
+    if set(from_ctx) & {n for n, _ in required + optional}:
+        raise ConfigRejected("a from_context key equals an unbound parameter name of the element (rejected by the loader)")
     nm.params = [(k, REQ) for k in from_ctx] + required + optional
     nm.sweep = {"exprs": exprs, "variables": variables, "mode": mode,
                 "broadcast": bool(sweep.get("broadcast", False)), "from_ctx": from_ctx}
